@@ -185,7 +185,7 @@ def explore_chunk(oi, stack, max_paths, max_s, timeout_ms, validate=True):
     out = dict(oi=oi, paths=0, aborted=0, ok=0, violations=[], known=[], errors=[],
                inconclusive=[], queries=0, solver_s=0.0, validated=0, e2e=0,
                samples=[], nontrivial=0, checks=0, max_depth=0, leftover=[], concretised=0,
-               forks=0)
+               forks=0, notes={})
     stack = list(stack)
     n = 0
     while stack:
@@ -208,6 +208,7 @@ def explore_chunk(oi, stack, max_paths, max_s, timeout_ms, validate=True):
             out["errors"].append(dict(msg=r["msg"], prefix=prefix))
             continue
         out["paths"] += 1
+        _merge_notes(out["notes"], eng.notes)
         out["max_depth"] = max(out["max_depth"], len(eng.trail))
         out["forks"] += r["forks"]
         out["concretised"] += r["concs"]
@@ -266,6 +267,14 @@ def explore_chunk(oi, stack, max_paths, max_s, timeout_ms, validate=True):
     out["leftover"] = stack
     out["wall"] = time.time() - t0
     return out
+
+
+def _merge_notes(dst, src):
+    for k, v in src.items():
+        if isinstance(v, (set, frozenset)):
+            dst.setdefault(k, set()).update(v)
+        elif isinstance(v, (int, float)):
+            dst[k] = dst.get(k, 0) + v
 
 
 def _record_violation(ob, out, eng, model, msg, sym_msg=None, e2e=False):
@@ -367,7 +376,7 @@ def run_all(obligations, known, budget_s, jobs=None, chunk_paths=200, chunk_s=20
         agg[i] = dict(name=ob.name, paths=0, aborted=0, ok=0, violations=[], known=[], errors=[],
                       inconclusive=[], queries=0, solver_s=0.0, validated=0, e2e=0, samples=[],
                       nontrivial=0, checks=0, max_depth=0, concretised=0, forks=0,
-                      exhausted=False, twin=None, cpu_s=0.0)
+                      exhausted=False, twin=None, cpu_s=0.0, notes={})
     ctx = mp.get_context("fork")
     rnd = random.Random(seed)
     with ProcessPoolExecutor(max_workers=jobs, mp_context=ctx) as pool:
@@ -405,6 +414,7 @@ def run_all(obligations, known, budget_s, jobs=None, chunk_paths=200, chunk_s=20
                           "nontrivial", "checks", "concretised", "forks"):
                     a[k] += r[k]
                 a["cpu_s"] += r["wall"]
+                _merge_notes(a["notes"], r["notes"])
                 a["max_depth"] = max(a["max_depth"], r["max_depth"])
                 for k in ("violations", "known", "errors", "inconclusive"):
                     a[k].extend(r[k])
